@@ -182,6 +182,7 @@ func runC06(c *Ctx) {
 			continue
 		}
 		kernelEncoderTransform(c, p)
+		segmentMapOff(c, p)
 		pk := p.SSAPkg("internal/lossy")
 		if pk == nil {
 			c.AnchorMissing("Q1-quant-derivation", "package internal/lossy")
@@ -255,5 +256,91 @@ func runC06(c *Ctx) {
 			fmt.Sprintf("%s and %s derive the %d dequantisation factors with the same tables, clamp limits and post-operations", encFn.Name(), decFn.Name(), len(ds)),
 			fmt.Sprintf("%s (encoder) and %s (decoder) do not derive the dequantisation factors the same way: %s - the encoder quantises and reconstructs with a different step than the decoder uses, so the decoded planes drift from the encoder's reconstruction", encFn.Name(), decFn.Name(), strings.Join(diffs, "; ")))
 		c.Floor("Q1-quant-derivation", len(ds), 6)
+	}
+}
+
+// Q2 segment-map-off: a VP8 decoder that is told (update_mb_segmentation_map = 0) that no segment
+// map is transmitted uses segment 0 for every macroblock. So wherever the encoder stores the
+// constant false into the segment header's UpdateMap flag, every macroblock's segment id must be
+// reset to 0 on the same path (a loop storing 0 into the Segment field of every element, which
+// every path from the flag store to the function's exit passes through): otherwise the encoder
+// quantises and reconstructs some macroblocks with a segment quantiser the decoder never uses.
+func segmentMapOff(c *Ctx, p *Program) {
+	c.Rule("Q2 segment-map-off: every store of the constant false into the encoder's segment-header flag UpdateMap is followed, on every path to the function's exit, by a loop that stores 0 into the Segment field of the macroblock records (the decoder assumes segment 0 for all macroblocks when no map is sent)")
+	pk := p.SSAPkg("internal/lossy")
+	if pk == nil {
+		return
+	}
+	n := 0
+	for _, fn := range p.SrcFuncs() {
+		if fn.Pkg != pk || fn.Blocks == nil {
+			continue
+		}
+		var flagStores []*ssa.Store
+		var zeroLoops []*ssa.BasicBlock // loop headers of loops that store 0 into .Segment of a slice element
+		for _, b := range fn.Blocks {
+			for _, in := range b.Instrs {
+				st, ok := in.(*ssa.Store)
+				if !ok {
+					continue
+				}
+				fa, ok := st.Addr.(*ssa.FieldAddr)
+				if !ok {
+					continue
+				}
+				name := fieldNameOf(fa.X.Type(), fa.Field)
+				k, isC := st.Val.(*ssa.Const)
+				if !isC || k.Value == nil {
+					continue
+				}
+				switch name {
+				case "UpdateMap":
+					if bv, ok := constBool(k); ok && !bv {
+						// the encoder's header (the decoder parses its own copy from the bitstream)
+						if strings.Contains(p.Pos(fn.Pos()), "encode") {
+							flagStores = append(flagStores, st)
+						}
+					}
+				case "Segment":
+					if kv, ok := constantInt(k); ok && kv == 0 {
+						if _, isElem := fa.X.(*ssa.IndexAddr); isElem {
+							for _, h := range fn.Blocks {
+								if li := loopOf(h); li != nil && li.body[b] {
+									zeroLoops = append(zeroLoops, h)
+								}
+							}
+						}
+					}
+				}
+			}
+		}
+		if len(flagStores) == 0 {
+			continue
+		}
+		ipd := computeIPdom(fn)
+		for i, st := range flagStores {
+			n++
+			c.Func(FnName(fn))
+			ok := false
+			for d := ipd[st.Block()]; d != nil; d = ipd[d] {
+				for _, h := range zeroLoops {
+					if h == d {
+						ok = true
+					}
+				}
+			}
+			// the store's own block may be inside/before the loop header directly
+			for _, h := range zeroLoops {
+				if h == st.Block() {
+					ok = true
+				}
+			}
+			c.Check(ok, "Q2-segment-map-off", fmt.Sprintf("%s:UpdateMap=false#%d", FnName(fn), i+1), p.Pos(st.Pos()),
+				"every macroblock's segment id is reset to 0 on the path that switches the segment map off",
+				fn.Name()+" switches the segment map off (UpdateMap = false) without resetting every macroblock's Segment to 0 on that path: macroblocks that the analysis put into another segment are quantised and reconstructed with that segment's quantiser, while the decoder - which receives no map - dequantises them with segment 0's: the decoded picture drifts from the encoder's reconstruction")
+		}
+	}
+	if n == 0 {
+		c.Note("Q2 segment-map-off: the encoder never stores the constant false into a segment-header UpdateMap flag on this tree (no instance)")
 	}
 }
